@@ -5,7 +5,7 @@ from .. import shadow as sh
 from .. import space as sp
 from . import common as cm
 
-BOUNDS = {'quick': (5, 4), 'thorough': (7, 5)}
+BOUNDS = {'quick': (6, 4), 'thorough': (7, 5)}
 
 
 def cases(tier, seed):
